@@ -7,7 +7,7 @@ PROP = dict(
     # second engine: real chain (L2) — the wallet engine's `contracts` scenario family drives real
     # consensus diffs through index.Manager.syncDB / contracts.Manager on a host node with a second
     # chain manager mining forks; twin-node and end-to-end monitors
-    also=[dict(engine="wallet", harness="wallet", driver="drv_wallet", driver_args=[], flag_filter=r"^c06/(?!ends_successful/pool_refused)", corpus_filter=r"^c06_",   # pool_refused: root cause under investigation (coreutils pool state vs host-built proof); see DESIGN §0.5
+    also=[dict(engine="wallet", harness="wallet", driver="drv_wallet", driver_args=[], flag_filter=r"^c06/", corpus_filter=r"^c06_",
                shard_extra=None, extra=dict(family="contracts"), reset_op="reset", case_mode=False,
                nontrivial=r"^(form|reorg|append|revise)", min_ops=5, min_kinds=3,
                quick=dict(n=64, len=14, shards=8, timeout=400), thorough=dict(n=1600, len=18, shards=16, timeout=1700))],
